@@ -157,7 +157,12 @@ def step (cs : CaseSt) (op obs : String) : CaseSt × R :=
           | "sub" => { cs.m with subs := cs.m.subs + 1 }
           | "resize" => let L := (getNat fs "L").getD 1; { cs.m with Lmin := min cs.m.Lmin L, Lmax := max cs.m.Lmax L }
           | "stop" | "brk" => { cs.m with stopAt := match cs.m.stopAt with | some x => some x | none => some (o.returned, cs.m.enq.length), broke := cs.m.broke || kind == "brk" }
-          | "deq" => if getF ofs "ret" == some "nil" then cs.m else if getF ofs "ret" == some "error" then { cs.m with deqErr := cs.m.deqErr ++ [(getNat fs "id").getD 0] } else cs.m
+          | "deq" =>
+            let id := (getNat fs "id").getD 0
+            -- model-free: Dequeue answered nil for an item that exists and has not started: it must never start
+            if getF ofs "ret" == some "nil" then
+              (if id < cs.m.enq.length && !o.started.contains id then { cs.m with deqNil := cs.m.deqNil ++ [id] } else cs.m)
+            else if getF ofs "ret" == some "error" then { cs.m with deqErr := cs.m.deqErr ++ [id] } else cs.m
           | _ => cs.m
         let sawDeq := cs.feats.contains "deq" || kind == "deq"
         let cs1 := { cs with m := m', feats := if sawDeq && !cs.feats.contains "deq" then "deq" :: cs.feats else cs.feats }
@@ -165,6 +170,7 @@ def step (cs : CaseSt) (op obs : String) : CaseSt × R :=
           (if atMostOnce o then [] else ["C04.at_most_once"]) ++
           (if workersOK m' o then [] else ["C09.running_le_workers"]) ++
           (if errorsOK m' o then [] else ["C14.at_most_once_same_value"]) ++
+          (if dequeuedNeverStart m' o cs.prevStarted then [] else ["C16.dequeue_nil_never_starts"]) ++
           (match m'.stopAt with | some (_, n) => if o.started.all (· < n) then [] else ["C19.after_stop_never_run"] | none => [])
         ({ cs1 with prevStarted := o.started },
          { mon := free ++ (if kind == "final" && !sawDeq then (finalOK m' o).map (fun c => if c == "C04.never_dropped" && m'.stopAt.isSome then "C19.stop_runs_accepted_once" else c) else []),
@@ -227,7 +233,7 @@ def step (cs : CaseSt) (op obs : String) : CaseSt × R :=
         (fun s => if dequeueRet s id == .nil then step? s (.dequeue id) else some s,
          fun s => implRet == some (if dequeueRet s id == .nil then "nil" else "error"),
          fun ok =>
-           if implRet == some "nil" && id < before.nextId && ok.all (fun b => (findId (stored b) id).isSome) then { cs.m with deqNil := cs.m.deqNil ++ [id] }
+           if implRet == some "nil" && id < before.nextId && !o.started.contains id then { cs.m with deqNil := cs.m.deqNil ++ [id] }
            else if implRet == some "error" then { cs.m with deqErr := cs.m.deqErr ++ [id] } else cs.m)
       | "setprio" =>
         let id := (getNat fs "id").getD 0
